@@ -460,6 +460,11 @@ thread_local!(
     pub static SIZE_UNKNOWN: std::cell::RefCell<Option<String>> = Default::default()
 );
 
+thread_local!(
+    /// Relative path of a directory whose opendir() failed for the walkers (injected fault).
+    pub static UNLISTABLE: std::cell::RefCell<Option<String>> = Default::default()
+);
+
 pub fn model_listing(base: &Path, tree: &TreeSpec, cfg: &WalkCfg) -> Vec<Seen> {
     let mut out = vec![];
     for r in &tree.roots {
@@ -523,7 +528,7 @@ fn list(base: &Path, p: &Path, depth: usize, cfg: &WalkCfg, root_dev: Option<u64
             }
         }
     }
-    out.push(Seen::Ok(relp));
+    out.push(Seen::Ok(relp.clone()));
     if !md.is_dir() {
         return;
     }
@@ -536,6 +541,10 @@ fn list(base: &Path, p: &Path, depth: usize, cfg: &WalkCfg, root_dev: Option<u64
                 return;
             }
         }
+    }
+    if UNLISTABLE.with(|c| c.borrow().as_deref() == Some(relp.as_str())) {
+        out.push(Seen::Err("io".into(), relp));
+        return;
     }
     let mut kids: Vec<PathBuf> = match std::fs::read_dir(p) {
         Ok(rd) => rd.filter_map(|e| e.ok()).map(|e| e.path()).collect(),
